@@ -57,6 +57,7 @@ fn main() {
         }
         env.add_function("probe", |_state: &State| -> String { String::new() });
         install(&mut env, prog);
+        install_limits(&mut env, prog, n);
         env.set_fuel(if b < 0 { None } else { Some(b as u64) });
         let tmpl = env.get_template("main").expect("main");
         let trace: Rc<RefCell<Vec<String>>> = Rc::new(RefCell::new(Vec::new()));
